@@ -28,7 +28,7 @@ WNEW = "%s/internal/witness.New" % W
 INITM = "%s/internal/witness.initMetrics$1" % W
 
 PROPS = {
-    "C01": {"funcs": [UPDATE], "tags": ["C01"], "assumptions": [A_NOTE, A_STORE, A_MERKLE, A_VCPREFIX,
+    "C01": {"runs": [{"funcs": [UPDATE] + IM_FUNCS, "tags": ["C01", "C05.cas", "C05.wr", "C05.snap"]}], "assumptions": [A_NOTE, A_STORE, A_MERKLE, A_VCPREFIX,
             "the induction over histories is the pure lemma history_step (discharged by SMT) applied per commit; that commits of different calls are applied in sequence is the storage contract"],
             "bounded": [], "not_decided": ["agreement of proof.VerifyConsistency with RFC 6962 ground truth (Merkle mathematics): assumed"]},
     "C02": {"funcs": [UPDATE, ASLOGMAP, WNEW], "tags": ["C02"], "assumptions": [A_NOTE, A_STORE, "formats/note.NewVerifier and log.ID are functions of their argument (assumed contracts); omniwitness.Main passing AsLogMap's result to witness.New is read, not verified (Main uses goroutines: outside the subset)"]},
@@ -51,7 +51,7 @@ PROPS = {
     "C20": {"funcs": [UPDATE, INITM], "tags": ["C20"], "assumptions": [A_NOTE, A_STORE, A_VCPREFIX, "monitoring.Counter.Inc adds one to the counter for its label (interface contract)"]},
 }
 
-HOOK_COMMITS = ["7296b73", "af7d29a", "308f21e", "b6239f6", "c655fca", "35e6d9a"]
+HOOK_COMMITS = ["7296b73", "af7d29a", "308f21e", "b6239f6", "c655fca", "35e6d9a", "634df6a"]
 
 NOT_APPLICABLE = {
     "C14": "whole-system liveness and timing over goroutines, tickers, HTTP servers and stub log servers ('within a bounded number of poll intervals', across restarts): no per-function contract expresses 'eventually catches up', and omniwitness.Main (go/select/errgroup) is outside the generator's subset. Its safety ingredients are decided by C01, C12, C13, C16.",
